@@ -42,15 +42,19 @@ PROPS["C01"] = dict(
 
 PROPS["C03"] = dict(
     inject=[
-        ("src/bigint.rs", "c03/bigint.rs"),
+        ("src/bigint.rs", "c03/bigint.rs"), ("src/biguint/division.rs", "c03/biguint_division.rs"), ("src/biguint/shift.rs", "c07/biguint_shift.rs"),
     ],
-    kani=[dict(filter_q="c03_q_", filter_t=["c03_q_", "c03_t_"], jobs=14, timeout_q=200, timeout_t=900)],
-    engines=[],
-    functions=["BigInt::{div_rem,/,%,div_floor,mod_floor,div_mod_floor,div_ceil,div_euclid,rem_euclid,div_rem_euclid,checked_*}"],
+    kani=[dict(filter_q="c03_q_", filter_t=["c03_q_", "c03_t_"], jobs=14, timeout_q=240, timeout_t=900)],
+    engines=[dict(module="asmsym", func="run_div")],
+    functions=["BigInt::{div_rem,/,%,div_floor,mod_floor,div_mod_floor,div_ceil,div_euclid,rem_euclid,div_rem_euclid,checked_*}",
+               "biguint::division::{div_rem, div_rem_ref} (pre-checks, normalisation shift, de-normalisation)", "div_rem_digit, rem_digit", "div_wide (asm binding + fault condition)"],
     bounds_quick="sign conventions: 10 APIs x 4 sign pairs x shapes (|a|,|b|,|q|,|r|) in {(1,1,1,1),(1,1,1,0),(1,1,0,1),(2,1,2,1)} digits + zero dividend; zero-divisor set on 0..2-digit dividends",
     bounds_thorough="18 API forms x 4 sign pairs x 12 shapes up to 2x2 digits",
     outside="value correctness of the Knuth-D core (div_rem_core) - replaced by its contract; operands > 2 digits",
-    trusted=STUBS_ADDSUB + ["contract stub: biguint::division::div_rem_ref -> arbitrary canonical (q,r), r<d, |a| = P + r with abstract product P (P=0 iff q=0)"],
+    trusted=STUBS_ADDSUB + ["contract stub: biguint::division::div_rem_ref -> arbitrary canonical (q,r), r<d, |a| = P + r with abstract product P (P=0 iff q=0)",
+                            "contract stub: div_rem_core -> arbitrary canonical (q,r), r<b, a = P + r, P multiple of 2^shift; its preconditions asserted at the call",
+                            "contract stub: div_wide -> arbitrary (q,r), r<d, q=0 iff numerator<d; precondition hi<d asserted (the #DE condition); asm operand binding decided by the asm engine",
+                            "fixed-word stand-ins for biguint_shl/biguint_shr (real kernels entered with word shift 0; decomposition decided under C07)"],
 )
 
 PROPS["C05"] = dict(
